@@ -140,6 +140,35 @@ def main(args):
         print("selftest: model acceptance, %-42s -> %s" % (what, "REJECTED (drift at record %s)" % d2[0]["line_in_execution"] if ok else "ACCEPTED (wrong)"))
         if not ok:
             fails.append("corrupted trace accepted by HtpParser.tla: " + what)
+    # hybrid-mode API: recorded executions are behaviours of HtpHybrid.tla; a corrupted return code / progress field / callback is not
+    import hybrid
+    hs = hybrid.scenarios(ctx)[:6]
+    hfiles = streams.run_rec(ctx, exe["rec"], hs, "selfh", nshards=1)
+    hacc = hybrid.accept(ctx, hfiles)
+    okh = hacc["hybrid_traces_accepted"] == hacc["hybrid_traces_offered"] == len(hs)
+    print("selftest: hybrid model acceptance of %d recorded execution(s)          -> %s" % (len(hs), "ACCEPTED" if okh else "REJECTED %s" % hacc["hybrid_drifts"][:1]))
+    if not okh:
+        fails.append("HtpHybrid.tla does not accept the baseline hybrid executions")
+    hrecs = [json.loads(l) for l in open(hfiles[0])]
+    def h_rc(recs):
+        i = [k for k, r in enumerate(recs) if r.get("e") == "HRet" and r.get("op") == "qheaders"][0]
+        out = list(recs); out[i] = dict(out[i], rc="ERROR"); return out
+    def h_sp(recs):
+        i = [k for k, r in enumerate(recs) if r.get("e") == "HRet" and r.get("op") == "sstart"][0]
+        out = list(recs); out[i] = dict(out[i], sp=2); return out
+    def h_cb(recs):
+        i = [k for k, r in enumerate(recs) if r.get("e") == "Cb" and r.get("n") == "request_complete"][0]
+        return recs[:i] + recs[i + 1:]
+    for what, fn in (("a state function returns another code", h_rc), ("response progress not LINE after the start", h_sp), ("REQUEST_COMPLETE callback missing", h_cb)):
+        f = ctx.path("hcorrupt.ndjson")
+        open(f, "w").write("".join(json.dumps(r, separators=(",", ":")) + "\n" for r in fn(hrecs)))
+        ctx.drift = []
+        h2 = hybrid.accept(ctx, [f])
+        ok = len(h2["hybrid_drifts"]) >= 1
+        print("selftest: hybrid acceptance, %-45s -> %s" % (what, "REJECTED (drift at record %s)" % h2["hybrid_drifts"][0]["line"] if ok else "ACCEPTED (wrong)"))
+        if not ok:
+            fails.append("corrupted hybrid trace accepted by HtpHybrid.tla: " + what)
+    ctx.drift = []
     # pattern F
     rows = subprocess.run([exe["fn_urlenc"], "exh", "3", "0", "64"], capture_output=True, text=True, env=vlib.san_env()).stdout.splitlines()
     if len(rows) < 5:
